@@ -17,6 +17,7 @@ macro_rules! dispatch {
         match $id {
             "C17" => runner::$f(&props::c17::C17, $($arg),*),
             "C18" => runner::$f(&props::c18::C18, $($arg),*),
+            "C19" => runner::$f(&props::c19::C19, $($arg),*),
             _ => { eprintln!("HARNESS-ERROR: no check for property {}", $id); 2 }
         }
     };
